@@ -40,8 +40,11 @@ type C17Case struct {
 	FromMode string `json:"from_mode,omitempty"`
 	// Nest: the statement is placed inside another one - "cte" (WITH c AS (Q) SELECT * FROM c), "derived"
 	// (SELECT * FROM (Q) x) or "union" (Q UNION ALL Q): options apply to nested selects exactly as to the outer one
-	Nest    string `json:"nest,omitempty"`
-	BSQuote bool   `json:"bsquote,omitempty"` // variant spells a quote inside a literal as \' (canonical: '')
+	Nest string `json:"nest,omitempty"`
+	// MixBT (with DQ): names the variant writes between backticks next to the double-quoted ones - their
+	// contents (double quotes, brackets, a trailing backslash) reach the engine untouched
+	MixBT   []string `json:"mix_bt,omitempty"`
+	BSQuote bool     `json:"bsquote,omitempty"` // variant spells a quote inside a literal as \' (canonical: '')
 }
 
 var c17LitPieces = []string{"\"", "'", "`", "\\", "[", "]", "é", "日本", "a", " ", "[1,2]", "\"x\"", "\\\"", "]]", "[[", "''", "b", "😀", "\\\\", "ARRAY(", ")", ","}
@@ -51,7 +54,7 @@ var c17LitPieces = []string{"\"", "'", "`", "\\", "[", "]", "é", "日本", "a",
 var c17Idents = []string{"'wé b'", "it[0].k", "it[1].k", "'k[1]'", "é", "it[0]", "'br]['", "nokey", "'a b'.c"}
 var c17IdentsBT = []string{"'q\"x'", "'say \"[hi]\"'"}
 var c17Aliases = []string{"al [1] é", "a\\b", "\\[x", "v é", "a[0]", "[", "]", "it's", "日本", "x'y'z", "a b", "[[x]", "q]"}
-var c17AliasesBT = []string{"q\"uote", "\"", "a\"[1]\""}
+var c17AliasesBT = []string{"q\"uote", "\"", "a\"[1]\"", "k\\", "tail [0]\\", "\\"}
 
 func genC17Literal(t *rapid.T, label string) string {
 	n := rapid.IntRange(0, 6).Draw(t, label+".n")
@@ -198,6 +201,13 @@ func genC17(t *rapid.T) any {
 		}
 		c.Items = append(c.Items, SelItem{Expr: e, Alias: alias(l)})
 	}
+	if c.DQ {
+		for _, it := range c.Items {
+			if rapid.IntRange(0, 3).Draw(t, "mixbt."+it.Alias) == 0 {
+				c.MixBT = append(c.MixBT, it.Alias)
+			}
+		}
+	}
 	c.Items = rapid.Permutation(c.Items).Draw(t, "order")
 	switch rapid.IntRange(0, 3).Draw(t, "where") {
 	case 0:
@@ -223,6 +233,10 @@ func (c *C17Case) render(variant bool) string {
 	if variant {
 		if c.DQ {
 			st.Ident = "dq"
+			st.BT = map[string]bool{}
+			for _, n := range c.MixBT {
+				st.BT[n] = true
+			}
 		}
 		if c.BR {
 			st.Arrays = "br"
